@@ -305,16 +305,133 @@ func c21FamSharedNT(r *rand.Rand, name string, comment bool) string {
 	return sb.String()
 }
 
-// c21Family renders family number n%4.
+// c21FamTwins: two or three lists whose elements are structurally IDENTICAL and differ only in the node
+// name after `->` (`'p' ('n' -> Plus)+ -> Adds | 'm' ('n' -> Minus)+ -> Subs`): the expansion of lists
+// extracts nonterminals and must not share one between them.
+func c21FamTwins(r *rand.Rand, name string, comment bool) string {
+	n := 2 + r.Intn(2)
+	elemKind := r.Intn(4)
+	listKind := r.Intn(4)
+	var alts []string
+	for i := 0; i < n; i++ {
+		key := fmt.Sprintf("'%c'", 'a'+i)
+		tn := fmt.Sprintf("E%d", i+1)
+		var elem string
+		switch elemKind {
+		case 0:
+			elem = fmt.Sprintf("('x' -> %s)", tn)
+		case 1:
+			elem = fmt.Sprintf("('x' 'y' -> %s)", tn)
+		case 2:
+			elem = fmt.Sprintf("(('x' -> In) 'y' -> %s)", tn)
+		default:
+			elem = fmt.Sprintf("('x' 'y'? -> %s)", tn)
+		}
+		var list string
+		switch listKind {
+		case 0:
+			list = elem + "+"
+		case 1:
+			list = elem + "*"
+		case 2:
+			list = fmt.Sprintf("(%s separator 'z')+", elem)
+		default:
+			list = fmt.Sprintf("f1+=%s+", elem)
+		}
+		alts = append(alts, fmt.Sprintf("%s %s 'w' -> L%d", key, list, i+1))
+	}
+	var sb strings.Builder
+	// terminals a..d keys, w x y z
+	fmt.Fprintf(&sb, "language %s(go);\n\nlang = %q\npackage = \"gp/%s\"\neventBased = true\neventFields = true\neventAST = true\n", name, name, name)
+	sb.WriteString("\n::lexer\n\nWhiteSpace: /[ ]+/ (space)\n")
+	if comment {
+		sb.WriteString("Comment: /#/ (space)\n")
+	}
+	for _, t := range "abcdwxyz" {
+		fmt.Fprintf(&sb, "'%c': /%c/\n", t, t)
+	}
+	sb.WriteString("\n::parser\n\n%input Root;\n\n")
+	if comment {
+		sb.WriteString("%inject Comment -> Comment;\n")
+	}
+	sb.WriteString("\nRoot -> Root :\n    Stmt+\n;\nStmt :\n    " + strings.Join(alts, "\n  | ") + "\n;\n")
+	return sb.String()
+}
+
+// c21FamInputs: a second user input (mostly `no-eoi`) whose rules are reachable ONLY from it and report a
+// node type that the first input also produces, with additional children of their own; trees are built
+// through every entry point.
+func c21FamInputs(r *rand.Rand, name string, comment bool) string {
+	var sb strings.Builder
+	noeoi := " no-eoi"
+	if r.Intn(4) == 0 {
+		noeoi = ""
+	}
+	sb.WriteString(c21FamHeader(name, comment, 8, nil, nil, "Doc, Frag"+noeoi))
+	shared := "Pair"
+	docPair := "('a' -> Key)"
+	if r.Intn(2) == 0 {
+		docPair = "('a' -> Key) ('b' -> Mid)?"
+	}
+	fragOwn := "Frag"
+	if r.Intn(4) != 0 {
+		fragOwn = shared // the fragment's root has the type of a node of the main input
+	}
+	extras := []string{"('d' -> Val)", "('d' -> Val) ('e' -> Tail)?", "('d' -> Val)+", "v=('d' -> Val)"}
+	extra := extras[r.Intn(len(extras))]
+	// the node types the fragment adds are also produced (elsewhere) by the main input
+	fmt.Fprintf(&sb, "Doc -> Doc :\n    ('g' %s 'h' -> %s)+ ('d' -> Val)* ('e' -> Tail)?\n;\n", docPair, shared)
+	switch r.Intn(3) {
+	case 0:
+		fmt.Fprintf(&sb, "Frag -> %s :\n    ('a' -> Key) 'c' %s\n;\n", fragOwn, extra)
+	case 1:
+		fmt.Fprintf(&sb, "Frag -> %s :\n    FragBody\n;\nFragBody :\n    ('a' -> Key) 'c' %s\n  | 'f' %s\n;\n", fragOwn, extra, extra)
+	default:
+		fmt.Fprintf(&sb, "Frag -> FragRoot :\n    ('a' -> Key) 'c' (%s -> %s)\n;\n", extra, shared)
+	}
+	return sb.String()
+}
+
+// c21FamCatOpt: category (%interface) rules whose alternatives contain optional / nullable parts. The
+// compiler has to reject them ("cannot be used inside a category expression" / "must produce exactly one
+// node"); when it accepts one, the oracle applies to the field of that category in the parent. A quarter of
+// the draws are the well-formed variant (no optional part); rejected draws are redrawn.
+func c21FamCatOpt(r *rand.Rand, name string, comment bool) string {
+	var sb strings.Builder
+	sb.WriteString(c21FamHeader(name, comment, 6, nil, []string{"Value"}, "Root"))
+	sb.WriteString("Root -> Root :\n    Stmt+\n;\nStmt :\n    'a' val=Operand 'b' -> S1\n  | 'c' Operand 'd' other=Operand 'b' -> S2\n;\n")
+	lit := "Literal -> Literal :\n    'e'\n;\n"
+	switch r.Intn(16) / 3 { // 0..3: with an optional part (12 of 16), else well formed
+	case 0:
+		sb.WriteString("Operand -> Value :\n    Literal?\n;\n" + lit)
+	case 1:
+		sb.WriteString("Operand -> Value :\n    Literal?\n  | 'f' -> Var\n;\n" + lit)
+	case 2:
+		sb.WriteString("Operand -> Value :\n    OptLit\n;\nOptLit :\n    Literal?\n;\n" + lit)
+	case 3:
+		sb.WriteString("Operand -> Value :\n    ('e' -> Lit)?\n  | 'f' -> Var\n;\n")
+	default:
+		sb.WriteString("Operand -> Value :\n    Literal\n  | 'f' -> Var\n;\n" + lit)
+	}
+	return sb.String()
+}
+
+// c21Family renders family number n%7.
 func c21Family(r *rand.Rand, n int, name string, comment bool) (string, string) {
-	switch n % 4 {
+	switch n % 7 {
+	case 4:
+		return "twins", c21FamTwins(r, name, comment)
+	case 5:
+		return "inputs", c21FamInputs(r, name, comment)
+	case 6:
+		return "catopt", c21FamCatOpt(r, name, comment)
 	case 0:
 		return "cycle", c21FamCycle(r, name, comment)
 	case 1:
 		return "groups", c21FamGroups(r, name, comment)
 	case 2:
 		return "sharednt", c21FamSharedNT(r, name, comment)
-	default:
+	default: // 3
 		return "shared", c21FamShared(r, name, comment)
 	}
 }
